@@ -184,6 +184,7 @@ def write_evidence(prop, tier, seed, ded, rt, violations, known_hit, wall, undec
             "obligation_samples": [{"id": o["id"], "text": o.get("text", ""), "status": o["status"],
                                     "seconds": o.get("seconds")} for o in obs[:: max(1, len(obs) // 8)]][:10],
             "bounded_in": ded.get("bounded_in", []),
+            "slowest_tasks": ded.get("slowest_tasks", []),
             "slowest_obligations": [{"id": o["id"], "seconds": o.get("seconds"), "backend": o.get("backend")}
                                     for o in sorted(obs, key=lambda o: -(o.get("seconds") or 0))[:8]],
         })
